@@ -205,6 +205,7 @@ def run_scenario(sc, base, fast=True, mode='each', real_passes=None, on_test=Non
         with shim.installed(sc.get('sched', []), fast_test if fast else None, quiet_logging=quiet_logging) as st:
             if on_test:
                 st.on_test = on_test
+            st.max_scheduled = sc.get('max_scheduled', 60000)
             o.shim = st
             stats = statistics.PassStatistic()
             try:
@@ -278,6 +279,8 @@ def run_scenario(sc, base, fast=True, mode='each', real_passes=None, on_test=Non
                     except BaseException as e:  # SystemExit from the KeyboardInterrupt path included
                         exc = e
                         code = EXC_CODES.get(type(e).__name__, 50)
+                        if isinstance(e, shim.Budget):
+                            o.diverged = True
                         # the statistics object refuses the next start() after an aborted pass
                         stats.last_pass_name = None
                     w1, f1, e1 = stat_of(p)
@@ -318,6 +321,8 @@ def run_scenario(sc, base, fast=True, mode='each', real_passes=None, on_test=Non
                 except BaseException as e:
                     o.exc = e
                     code = EXC_CODES.get(type(e).__name__, 50)
+                    if isinstance(e, shim.Budget):
+                        o.diverged = True
                 b, x = counts()
                 d = joint()
                 o.final = d
